@@ -80,7 +80,7 @@ def run(ctx):
     ctx.level = "exploration"
     ctx.rule = ("a case = (record type, format, abstract value); quick: pairwise-complete over 2-3 base values per record type "
                 "x every format of the record + 2000 seeded values from the full product of the pin domains; thorough: "
-                "three-wise-complete + 20000; non-trivial = the value is not the minimal base value; distinct by abstract content. "
+                "three-wise-complete + 60000; non-trivial = the value is not the minimal base value; distinct by abstract content. "
                 "Decoder totality inputs are counted separately (decoder_inputs_sampled) and are SAMPLING: structured "
                 "corruptions of real encodings (every truncation offset, byte substitutions at every offset, inserted "
                 "oversize lengths, wrong type / invalid CID-peer-multiaddr / non-UTF8 per field, deep nesting) + seeded random bytes")
@@ -89,8 +89,9 @@ def run(ctx):
         "ErrorIfNoField) and pubsubmon configure them; the transports themselves are not run",
         "equality of abstract values (Codec.tla Norm): nil = empty for lists and maps, peer/address lists compared as sets with "
         "multiplicity count, time.Time{} = Unix(0,0) (both mean 'never expires'), instants compared regardless of location",
-        "announced lengths in corrupted msgpack inputs stay <= 2^20 bytes / 2^16 elements (ugorji/codec allocates what a header announces: "
-        "4 GiB for 0xffffffff, observed; not a crash)",
+        "every 32-bit msgpack length/count header in an input fed to a msgpack decoder is clamped below 2^20 (ugorji/codec reading "
+        "from a stream allocates what a bin32/str32/array32/map32 header announces: a 20-byte random input made the driver grow "
+        "to 9.8 GB; an amplification, not a crash, so it is not fed on the shared machine)",
         "state export/import is reproduced from cmdutils (List -> json lines -> Decode -> Add) on real dsstate",
     ]
     quick = ctx.quick()
@@ -104,7 +105,7 @@ def run(ctx):
         # SPEC + GEN in one run: every state of the three-wise model is a case, printed by the (parallel) model
         # checker while it checks the laws of Proj on it; the seeded full-product sample comes from CodecGen
         r = ctx.tlc("CodecMC.tla", "CodecMC_emit.cfg", workers=8, timeout=3000, heap="8g")
-        n = gen(ctx, 1, 20000, cases)
+        n = gen(ctx, 1, 60000, cases)
         seen = set(l for l in open(cases))
         with open(cases, "a") as f:
             for line in r.out.splitlines():
@@ -124,7 +125,7 @@ def run(ctx):
     fuzz = os.path.join(ctx.work, "c08_fuzz.ndjson")
     ctx.go_test("c08_codec", run="TestRoundTrip$", infile=cases, env={"VERIF_TRACE": trace}, timeout=3000)
     d = ctx.go_test("c08_codec", run="TestDecoderTotality$", infile=cases,
-                    env={"VERIF_FUZZ": fuzz, "VERIF_FUZZ_RANDOM": 3000 if quick else 60000}, timeout=3000,
+                    env={"VERIF_FUZZ": fuzz, "VERIF_FUZZ_RANDOM": 3000 if quick else 200000}, timeout=3000,
                     panic_is_violation=True)
     if not os.path.exists(fuzz):
         if d.violations:
